@@ -138,15 +138,22 @@ func newWorld(c *hx.Ctx) *world {
 	return w
 }
 
+// legacyPossible: the configured network has a new-ONT-ID height above 0 (main net: 9,000,000).
+func legacyPossible() bool { return config.GetNewOntIdHeight() > 0 }
+
 func (w *world) reset() { w.overlay = overlaydb.NewOverlayDB(leveldbstore.NewMemLevelDBStore()) }
 
 // call runs one native call as its own transaction: a fresh cache over the committed store,
 // committed only when the call did not fail (a failing native call aborts the transaction).
-func (w *world) call(signers []common.Address, method string, args []byte) (ok bool, panicMsg string, errMsg string) {
+func (w *world) call(legacy bool, signers []common.Address, method string, args []byte) (ok bool, panicMsg string, errMsg string) {
 	cache := storage.NewCacheDB(w.overlay)
 	tx := &types.Transaction{SignedAddr: signers}
+	height := config.GetNewOntIdHeight() + 1000
+	if legacy {
+		height = config.GetNewOntIdHeight() - 1
+	}
 	sc := &smartcontract.SmartContract{
-		Config:  &smartcontract.Config{Time: 1600000000, Height: config.GetNewOntIdHeight() + 1000, Tx: tx},
+		Config:  &smartcontract.Config{Time: 1600000000, Height: height, Tx: tx},
 		CacheDB: cache,
 		Gas:     1 << 60,
 	}
@@ -169,6 +176,30 @@ func (w *world) call(signers []common.Address, method string, args []byte) (ok b
 	}
 	cache.Commit()
 	return true, "", ""
+}
+
+// query runs a read-only native call; ok = returned TRUE without error.
+func (w *world) query(signers []common.Address, method string, args []byte) (ret []byte, ok bool, errMsg string) {
+	cache := storage.NewCacheDB(w.overlay)
+	sc := &smartcontract.SmartContract{
+		Config:  &smartcontract.Config{Time: 1600000000, Height: config.GetNewOntIdHeight() + 1000, Tx: &types.Transaction{SignedAddr: signers}},
+		CacheDB: cache,
+		Gas:     1 << 60,
+	}
+	ns, e := sc.NewNativeService()
+	if e != nil {
+		panic(e)
+	}
+	var err error
+	panicked, msg := hx.Recover(func() { ret, err = ns.NativeCall(utils.OntIDContractAddress, method, args) })
+	w.c.Eval()
+	if panicked {
+		return nil, false, "PANIC: " + msg
+	}
+	if err != nil {
+		return ret, false, err.Error()
+	}
+	return ret, bytes.Equal(ret, utils.BYTE_TRUE), ""
 }
 
 // ---------------------------------------------------------------- raw storage dump
@@ -413,9 +444,21 @@ func (r *runner) runHistory(h *History, emit bool) []stepOut {
 	for n := range h.Ops {
 		o := &h.Ops[n]
 		e := w.encode(o)
+		if sideMethods[o.M] {
+			pre := w.dumpAll()
+			ok, pmsg, _ := w.call(false, r.signerAddrs(o), o.M, e.args)
+			post := w.dumpAll()
+			outs = append(outs, stepOut{ok, pmsg, ""})
+			r.c.Count("op(side):" + o.M)
+			if ok {
+				r.c.Count("accepted(side):" + o.M)
+			}
+			r.sideOracle(h, n, o, e, pre, post, ok, pmsg)
+			continue
+		}
 		term := w.coqOp(o, e) // interns every id the arguments mention
 		pre := w.dumpAll()
-		ok, pmsg, emsg := w.call(r.signerAddrs(o), o.M, e.args)
+		ok, pmsg, emsg := w.call(o.Legacy && legacyPossible(), r.signerAddrs(o), o.M, e.args)
 		post := w.dumpAll()
 		outs = append(outs, stepOut{ok, pmsg, emsg})
 		r.c.Count("op:" + o.M)
@@ -440,8 +483,14 @@ func (r *runner) runHistory(h *History, emit bool) []stepOut {
 		for _, t := range o.Sig {
 			sg = append(sg, fmt.Sprint(t%w.nAddrs))
 		}
-		steps = append(steps, fmt.Sprintf("mkStep %s (%s) %s %s", hx.CoqList(sg), term, hx.CoqBool(ok), w.coqRec(post[o.ID%nPoolIDs])))
+		if o.Legacy && legacyPossible() {
+			r.c.Count("path:old (below the new-ONT-ID height)")
+		} else {
+			r.c.Count("path:new")
+		}
+		steps = append(steps, fmt.Sprintf("mkStep %s %s (%s) %s %s", hx.CoqBool(o.Legacy && legacyPossible()), hx.CoqList(sg), term, hx.CoqBool(ok), w.coqRec(post[o.ID%nPoolIDs])))
 	}
+	r.queries(h)
 	if emit {
 		fin := w.dumpAll()
 		var fl, okl, vl, ka []string
@@ -542,6 +591,29 @@ func panicHistory() *History {
 	}}
 }
 
+// legacyHistory: two identities created and equipped on the old code path (old key-record
+// format: every key counts as an authentication key), then managed on the new one.
+func legacyHistory() *History {
+	one := uint64(1)
+	return &History{Tag: "probe:legacy-records", Ops: []Op{
+		{Legacy: true, M: "regIDWithPublicKey", ID: 0, Key: keyBlob(0), Sig: []int{0}},
+		{Legacy: true, M: "addKey", ID: 0, Key: keyBlob(1), Operator: keyBlob(0), Sig: []int{0}},
+		{Legacy: true, M: "addKeyByIndex", ID: 0, Key: keyBlob(3), Idx: 1, Sig: []int{0}}, // refused: not registered yet
+		{Legacy: true, M: "regIDWithAttributes", ID: 1, Key: keyBlob(2), Attrs: []Attr{{1, 1}}, Sig: []int{2}},
+		{Legacy: true, M: "addRecovery", ID: 0, Addr: 10, Operator: keyBlob(1), Sig: []int{1}},
+		{Legacy: true, M: "regIDWithController", ID: 2, CtrlID: ip(1), Proof: &Proof{Index: &one}, Sig: []int{2}},
+		{Legacy: true, M: "addKeyByController", ID: 2, Key: keyBlob(4), Proof: &Proof{Index: &one}, Sig: []int{2}},
+		{Legacy: true, M: "removeKey", ID: 0, Key: keyBlob(0), Operator: keyBlob(1), Sig: []int{1}},
+		{M: "addKeyByIndex", ID: 0, Key: keyBlob(3), Idx: 2, Sig: []int{1}},              // key #2 of the old record authenticates
+		{M: "addKeyByIndex", ID: 0, Key: keyBlob(5), Idx: 1, Sig: []int{0}},              // refused: key #1 revoked on the old path
+		{M: "addAttributesByIndex", ID: 1, Attrs: []Attr{{2, 2}}, Idx: 1, Sig: []int{2}}, // old-path regIDWithAttributes key authenticates
+		{M: "removeController", ID: 2, Idx: 1, Sig: []int{4}},                            // key added by the controller on the old path authenticates
+		{M: "removeAuthKey", ID: 0, KIdx: 2, Idx: 2, Sig: []int{1}},
+		{M: "addKeyByIndex", ID: 0, Key: keyBlob(6), Idx: 2, Sig: []int{1}}, // refused: no authentication right any more
+		{M: "addKey", ID: 0, Key: keyBlob(6), Operator: &Blob{"addr", 10}, Sig: []int{10}},
+	}}
+}
+
 func Run(c *hx.Ctx) {
 	c.CoqModule("Corr.C45")
 	w := newWorld(c)
@@ -564,7 +636,7 @@ func Run(c *hx.Ctx) {
 		}
 	}
 
-	for _, h := range []*History{lifecycleHistory(), zeroThresholdHistory(), panicHistory()} {
+	for _, h := range []*History{lifecycleHistory(), zeroThresholdHistory(), panicHistory(), legacyHistory()} {
 		outs := r.runHistory(h, true)
 		var res []string
 		for i, o := range outs {
